@@ -1,0 +1,26 @@
+//go:build verif
+
+// Contracts for package iter (comment-only; compiled only with the build tag "verif",
+// read by /verif/engine). Property C09: the pull adapter the streamed range read is consumed through.
+// The coroutine switch (runtime.coroswitch, linked by name) is outside the engine's subset: it is
+// ASSUMED to run the other side, which may change every variable the two sides share. What is
+// verified is each side's own step.
+
+package iter
+
+//@ func coroswitch
+//@   assumed
+//@   modifies family(C_bool)
+// the producer's yield: after the consumer ran, the producer is told to go on EXACTLY when the
+// consumer has not stopped - and a stopped consumer gets nothing more
+//@ func Pull$1$1
+//@   maypanic
+//@   ensures [C09.pull.goon] result == !*done
+//@   ensures [C09.pull.stopped] old(*done) ==> !result
+//@   modifies *yieldNext, *v, *ok, family(C_bool)
+// the consumer's next: a finished stream yields nothing
+//@ func Pull$2
+//@   maypanic
+//@   results v1, ok1
+//@   ensures [C09.pull.done] old(*done) ==> !ok1
+//@   modifies *yieldNext, family(C_bool)
